@@ -142,7 +142,12 @@ def run_case(ctx: Ctx, case: Dict[str, Any]) -> None:  # noqa: C901
                               "constrained variable has a value" % (case["behavior"], X.fmt_list(case["terms"])), case)
             else:
                 ctx.count("undocumented-exception(C14):%s" % type(got).__name__)
-        elif bool(got) != want:
+                ctx.violation("membership-raised:%s" % type(got).__name__, "contains_behavior(%s) on %s raised %s "
+                              "instead of answering %s" % (case["behavior"], X.fmt_list(case["terms"]),
+                                                           type(got).__name__, want), case)
+        elif bool(got) == want:
+            ctx.count("agree:membership:%s" % want)
+        if not isinstance(got, Exception) and want is not None and bool(got) != want:
             ctx.violation("membership-wrong:%s" % case["mode"], "contains_behavior(%s) on %s answered %s; exact "
                           "evaluation says %s" % (case["behavior"], X.fmt_list(case["terms"]), got, want), case)
         # evaluate: the remaining list must be the substitution instance
@@ -184,9 +189,14 @@ def run_case(ctx: Ctx, case: Dict[str, Any]) -> None:  # noqa: C901
         else:
             cls = "nonempty" if feas == "sat" else ("empty" if relaxed == "unsat" else "band")
             ctx.count("emptiness:%s:%s" % (case["mode"], cls))
+            if not isinstance(got, Exception) and cls != "band" and bool(got) == (cls == "empty"):
+                ctx.count("agree:emptiness:%s" % cls)
             if isinstance(got, Exception):
                 if not isinstance(got, ValueError):
                     ctx.count("undocumented-exception(C14):%s" % type(got).__name__)
+                    if cls != "band":
+                        ctx.violation("emptiness-raised:%s" % type(got).__name__, "is_empty(%s) raised %s on a "
+                                      "clear-cut system" % (X.fmt_list(case["terms"]), type(got).__name__), case)
                 elif cls != "band":
                     ctx.violation("emptiness-undecided", "is_empty(%s) raised %r on a clear-cut system" % (
                         X.fmt_list(case["terms"]), got), case)
